@@ -52,6 +52,35 @@ class A(Adapter):
     def end_cause(self, ps, action, s, ts, env, cfg):
         return "solved" if solved(s.cube) else None
 
+    # ---- reach probes ---------------------------------------------------------------------------
+    def events(self, ps, action, s, ts, env, cfg):
+        cube = np.asarray(s.cube)
+        uniform = int(sum(bool((cube[f] == cube[f].flat[0]).all()) for f in range(cube.shape[0])))
+        if ps is None:
+            ev = ["reset_solved"] if uniform == cube.shape[0] else []
+            if cube.shape[1] >= 4:
+                ev.append("reset_has_inner_layers")
+            if cube.shape[1] % 2 == 0:
+                ev.append("reset_even_cube")  # no fixed centre stickers
+            return ev
+        face, depth, amount = (int(v) for v in np.asarray(action).reshape(-1)[:3])
+        ev = ["half_turn" if amount == 2 else ("clockwise_turn" if amount == 0 else "anticlockwise_turn")]
+        if depth >= 1:
+            ev.append("inner_layer_turn")
+        if solved(ps.cube):
+            ev.append("turn_on_solved_cube")
+        if uniform == cube.shape[0]:
+            ev.append("ended_solved")
+            if depth >= 1:
+                ev.append("solved_by_inner_layer_turn")
+            if amount == 2:
+                ev.append("solved_by_half_turn")
+            if int(s.step_count) >= self.time_limit(env, cfg):
+                ev.append("solved_at_time_limit")
+        elif uniform >= 2:
+            ev.append("two_or_more_uniform_faces")
+        return ev
+
     # ---- C12 -------------------------------------------------------------------------------------
     def observe(self, s, obs, env, cfg):
         oc, sc = np.asarray(obs.cube), np.asarray(s.cube)
